@@ -711,6 +711,80 @@ let orc_item _args impl =
     with _ -> [("well_formed_result", false)])
   | _ -> []
 
+(* ---------------- C07 / C16: the UI driven over a synthetic world ---------------- *)
+type ucont = CList of int list
+let op_ui args =
+  let (preload, r) = take1 args in let (width, r) = take1 r in let (height, r) = take1 r in
+  let (n, r) = take1 r in
+  let parent = Array.make n (-1) and kids = Array.make n None and links = Array.make n [] in
+  let r = ref r in
+  for i = 0 to n - 1 do
+    let (p, r1) = take1 !r in let (hk, r2) = take1 r1 in let (ks, r3) = take_list r2 in
+    let (nl, r4) = take1 r3 in let (ls, r5) = take_texts nl r4 in
+    parent.(i) <- p; kids.(i) <- (if hk <> 0 then Some ks else None); links.(i) <- ls; r := r5
+  done;
+  let (root, r1) = take1 !r in
+  let (nf, r2) = take1 r1 in
+  let rf = ref r2 in
+  let feeds = ref [] in
+  for _ = 1 to nf do
+    let (name, r3) = take_text !rf in let (ni, r4) = take1 r3 in let (_, r5) = take_texts ni r4 in
+    feeds := name :: !feeds; rf := r5
+  done;
+  let keys = !rf in
+  let rec parents_rec i q =
+    if i < 0 || i >= n || parent.(i) < 0 then ([], None)
+    else if q = 1 then ([parent.(i)], Some parent.(i))
+    else let (pp, fr) = parents_rec parent.(i) (q - 1) in (parent.(i) :: pp, fr) in
+  let parents i q = let q = int_of_nat q in
+    if i < 0 || i >= n then ([], None)
+    else if q = 0 then ([], if parent.(i) >= 0 then Some i else None) else parents_rec i q in
+  let children i = if i >= 0 && i < n then (match kids.(i) with Some ks -> Some (CList ks) | None -> None) else None in
+  let rec firstn k l = if k = 0 then [] else match l with [] -> [] | x :: t -> x :: firstn (k - 1) t in
+  let rec skipn k l = if k = 0 then l else match l with [] -> [] | _ :: t -> skipn (k - 1) t in
+  let harvest (CList c) q b =
+    let q = int_of_nat q and b = int_of_nat b in
+    let len = List.length c in
+    if b >= len then (([], None), O)
+    else if b + q >= len then ((skipn b c, None), O)
+    else ((firstn q (skipn b c), Some (CList c)), nat_of_int (b + q)) in
+  let select_link i k = let k = int_of_z k in
+    if i >= 0 && i < n && k >= 1 && k <= List.length links.(i) then Some (List.nth links.(i) (k - 1)) else None in
+  let none1 _ = None in
+  let open_link _ = OItem 999 and open_user _ = OItem 999 in
+  let feed_named name = if List.mem name !feeds then Some (CList []) else None in
+  let hook_fails _ = None in
+  let msg _ = [] in
+  let pre = z_of_int preload in
+  let upd s k = update pre parents children select_link none1 none1 none1 none1 none1 none1 open_link open_user feed_named msg msg s (n_of_int k) in
+  let runt s t = run_task pre parents children harvest hook_fails s t in
+  let settle_all s = settle pre parents children harvest hook_fails (nat_of_int 1000) s in
+  let settle_g s = settle_gated pre parents children harvest hook_fails (nat_of_int 1000) s in
+  ignore runt;
+  let snap s =
+    let (((((((m, b), pid), it), (lo, up)), (lu, ld)), fr), h) = snapshot s in
+    [int_of_z m] @ put_text b @ [ (match pid with Some k -> int_of_nat k | None -> -1); (match it with Some i -> i | None -> -1);
+      int_of_z lo; int_of_z up; b2i lu; b2i ld; int_of_nat fr; int_of_z h ] in
+  let s0 = ui_init (z_of_int width) (z_of_int height) in
+  (* VerifOpen(root): switchTo under the lock, mode normal, one frame *)
+  let s1 = runt s0 (TOpen (OItem root)) in
+  let st = ref (settle_all s1) in
+  let out = ref (snap !st) in
+  let gated = ref false in
+  let rec go ks = match ks with
+    | [] -> ()
+    | 256 :: r -> gated := true; out := !out @ snap !st; go r
+    | 257 :: r -> gated := false; st := settle_all !st; out := !out @ snap !st; go r
+    | 258 :: w :: h :: r ->
+      st := resize !st (z_of_int w) (z_of_int h);
+      st := (if !gated then settle_g !st else settle_all !st); out := !out @ snap !st; go r
+    | k :: r ->
+      st := upd !st k;
+      st := (if !gated then settle_g !st else settle_all !st);
+      out := !out @ snap !st; go r in
+  go keys;
+  !out
+
 (* ---------------- dispatch ---------------- *)
 let handlers : (string, (int list -> int list -> int list) * (int list -> int list -> int list -> (string * bool) list)) Hashtbl.t = Hashtbl.create 64
 (* handlers that use library-oracle answers (the "<id> L ..." line of the implementation run) *)
@@ -739,6 +813,7 @@ let () =
   regl "render" op_render orc_render;
   regl "net" op_net orc_net;
   reg "item" op_item orc_item;
+  reg "ui" op_ui (orc_equal op_ui);
   reg "rendernm" (fun _ -> []) no_oracle;
   regl "objrender" op_objrender orc_objrender;
   reg "problem" op_problem orc_problem;
